@@ -4,8 +4,10 @@ C07 — Rule order and containment stay valid under any edit history.
 The sheet model (`Model/Sheet.lean`) transcribes insertRule / add / deleteRule / encoding /
 namespaces[...] / cssText= as coded (variant `fx = true` = /repo today, after the repairs recorded
 in known_findings.json; `fx = false` = the in-order placement of the pinned snapshot).
-`Valid` is the statement's ordering condition.  Operations are the API's: `add()` carries no index
-(`OpWF`).
+`Valid` is the statement's ordering condition.  The proof first needed the hypothesis that an in-order
+insertion carries no index (`OpWF`); running the real code at the excluded point showed a defect
+(`insertRule('@namespace …', 0, inOrder=True)` in front of an @import), repaired in /repo (df1e9ff): the
+theorems now hold for every operation, `snapshot_inorder_index` keeps the old behaviour as a witness.
 -/
 import CssVerif.Proofs.Sheet
 namespace CssVerif.C07
@@ -14,16 +16,16 @@ open CssVerif CssVerif.Sheet
 theorem valid_init : Valid [] := valid_nil
 
 /-- every operation keeps the rule list valid, whether it succeeds or is rejected -/
-theorem valid_step (s : Sheet) (hv : Valid s) (op : Op) (hwf : OpWF op) : Valid (step true s op).1 :=
-  step_valid s hv op hwf
+theorem valid_step (s : Sheet) (hv : Valid s) (op : Op) : Valid (step true s op).1 :=
+  step_valid s hv op
 
 /-- a rejected call leaves the list unchanged -/
 theorem reject_unchanged (s : Sheet) (op : Op) (e : Err) (h : (step true s op).2 = .raised e) :
     (step true s op).1 = s := step_reject true s op e h
 
 /-- every sheet reachable from the empty sheet by any finite history is valid -/
-theorem reachable_valid (ops : List Op) (hwf : ∀ op ∈ ops, OpWF op) :
-    Valid (ops.foldl (fun s op => (step true s op).1) []) := Sheet.reachable_valid ops hwf
+theorem reachable_valid (ops : List Op) :
+    Valid (ops.foldl (fun s op => (step true s op).1) []) := Sheet.reachable_valid ops
 
 /-- whatever text is assigned or parsed, the parse-time ordering machine only ever builds valid lists -/
 theorem parse_valid (rs : List Rule) : Valid (parseSheet true rs) := parseSheet_valid rs
@@ -35,11 +37,11 @@ theorem reparse_same_partial (s : Sheet) (hv : Valid s) (hp : plain s) : parseSh
   (reparse_same_plain s hv hp).1
 
 /-- corollary: every reachable plain sheet re-parses to itself -/
-theorem reachable_reparse (ops : List Op) (hwf : ∀ op ∈ ops, OpWF op)
+theorem reachable_reparse (ops : List Op)
     (hp : plain (ops.foldl (fun s op => (step true s op).1) [])) :
     parseSheet true (ops.foldl (fun s op => (step true s op).1) []) =
       ops.foldl (fun s op => (step true s op).1) [] :=
-  reparse_same_partial _ (reachable_valid ops hwf) hp
+  reparse_same_partial _ (reachable_valid ops) hp
 
 /-! ### containers: @media / @page only ever hold kinds they allow -/
 
@@ -85,6 +87,12 @@ theorem container_reject_unchanged (forbid kids : List Kind) (k : Kind) (i : Opt
 theorem snapshot_counterexample :
     ¬ Valid (step false [⟨.comment, 0, 0, []⟩, ⟨.import, 0, 0, []⟩]
       (.insert ⟨.namespace, 1, 1, []⟩ none true)).1 := by decide
+
+/-- an in-order insertion with an explicit index, before repair df1e9ff: the @namespace rule lands in
+front of the @import -/
+theorem snapshot_inorder_index :
+    ¬ Valid (step false [⟨.import, 0, 0, []⟩] (.insert ⟨.namespace, 1, 1, []⟩ (some 0) true)).1 ∧
+    Valid (step true [⟨.import, 0, 0, []⟩] (.insert ⟨.namespace, 1, 1, []⟩ (some 0) true)).1 := by decide
 
 /-- the same history with the repaired placement -/
 example : (step true [⟨.comment, 0, 0, []⟩, ⟨.import, 0, 0, []⟩]
